@@ -609,6 +609,32 @@ def c_slot_labels(pkg_dir, rel, func, defines):
     return labels
 
 
+# ------------------------------------------------------------------ front-end platform branches
+
+PLATFORM_NAMES = {"LINUX", "WINDOWS", "OSX", "MACOS", "BSD", "FREEBSD", "OPENBSD", "NETBSD", "SUNOS", "AIX", "POSIX"}
+
+
+def front_branches(init_tree):
+    """[(qualified function/class, test)] for every `if` / conditional expression INSIDE a function or class body of
+    psutil/__init__.py whose test names a platform constant, in source order"""
+    out = []
+
+    def visit(node, qual):
+        for ch in ast.iter_child_nodes(node):
+            q = qual
+            if isinstance(ch, (ast.FunctionDef, ast.AsyncFunctionDef, ast.ClassDef)):
+                q = qual + [ch.name]
+            if isinstance(ch, (ast.If, ast.IfExp)) and qual:
+                names = {n.id for n in ast.walk(ch.test) if isinstance(n, ast.Name)}
+                if names & PLATFORM_NAMES:
+                    out.append((ch.lineno, ch.col_offset, ".".join(qual), extract.unparse(ch.test)))
+            visit(ch, q)
+    visit(init_tree, [])
+    if len(out) < 10:
+        raise NotRecognised("only %d platform branches recognised in __init__.py" % len(out))
+    return [(q, t) for _, _, q, t in sorted(out)]
+
+
 # ------------------------------------------------------------------ docs
 
 
